@@ -341,6 +341,13 @@ func ubjDocFamilies(sc docScope, run docBody) []engine.Family {
 			doc := gen.UBJTree(x, 3, 3)
 			p := x.Choose(len(doc) + 1)
 			ins := cat2(doc[:p], []byte{'N'}, doc[p:])
+			if r := refOf(codecUBJSON, ins); r.Status == model.Malformed && strings.Contains(r.Feature, "length marker 'N'") {
+				// the no-op stands where a length marker is expected - among others in front of a field name or of the '}' of
+				// an object, where the draft can be read either way ("no-ops between elements") and parsers in the field
+				// differ: neither accepting nor rejecting it is judged
+				x.Count("noop_in_length_position_not_judged", 1)
+				return
+			}
 			mkDoc(x, codecUBJSON, "ubj-noop-insertions", "noop-inserted", ins, anyStatus, run)
 		}},
 		{Name: "ubj-deep", Body: func(x *engine.Exec) {
@@ -720,7 +727,7 @@ func init() {
 		engine.Register(&engine.Check{
 			ID: "C06", Level: "exploration",
 			Rule:        "all UBJSON values of the grammar up to N nodes (plain, counted, typed containers over up to 15 element types incl. containers of containers, no-ops in plain arrays; a no-op inserted at every byte position of every 3-node document), every scalar marker with boundary payloads, every length marker for strings/H, typed containers followed by siblings, nesting to 40; parsed by the real parser and compared with the reference decoder refubj; distinct by bytes, non-trivial = more than one byte",
-			Assumptions: []string{"refubj implements UBJSON draft 12; a no-op is skipped (and not counted) wherever a value may start - top level, array elements, object member values, plain and counted containers - and is malformed where a field name or a header field is expected", "char is mapped to the integer of its byte, H to its string (library data model)"},
+			Assumptions: []string{"refubj implements UBJSON draft 12; a no-op is skipped (and not counted) wherever a value may start - top level, array elements, object member values, plain and counted containers - and is malformed inside a header; where a field name is expected the draft is ambiguous and neither verdict is judged", "char is mapped to the integer of its byte, H to its string (library data model)"},
 			Families:    func(tier string) []engine.Family { return ubjDocFamilies(conformScope(tier), conformBody) },
 			Require:     []string{"values_compared"},
 		})
